@@ -213,7 +213,7 @@ func (t *Template) recover(errp *error) {
 	return
 }
 
-func (s *Set) parse(name, text string, cacheAfterParsing bool) (t *Template, err error) {
+func (s *Set) parse(name, text string, cacheAfterParsing bool, parsing ...string) (t *Template, err error) {
 	t = &Template{
 		Name:         name,
 		ParseName:    name,
@@ -228,7 +228,7 @@ func (s *Set) parse(name, text string, cacheAfterParsing bool) (t *Template, err
 	lexer.setCommentDelimiters(s.leftComment, s.rightComment)
 	lexer.run()
 	t.startParse(lexer)
-	t.parseTemplate(cacheAfterParsing)
+	t.parseTemplate(cacheAfterParsing, append(parsing, name))
 	t.stopParse()
 
 	if t.extends != nil {
@@ -255,7 +255,7 @@ func (t *Template) expectString(context string) string {
 
 // parse is the top-level parser for a template, essentially the same
 // It runs to EOF.
-func (t *Template) parseTemplate(cacheAfterParsing bool) (next Node) {
+func (t *Template) parseTemplate(cacheAfterParsing bool, parsing []string) (next Node) {
 	t.Root = t.newList(t.peek().pos)
 	// {{ extends|import stringLiteral }}
 	for t.peek().typ != itemEOF {
@@ -274,12 +274,12 @@ func (t *Template) parseTemplate(cacheAfterParsing bool) (next Node) {
 						t.errorf("Unexpected extends clause: the 'extends' clause should come before all import clauses")
 					}
 					var err error
-					t.extends, err = t.set.getSiblingTemplate(s, t.Name, cacheAfterParsing)
+					t.extends, err = t.set.getSiblingTemplate(s, t.Name, cacheAfterParsing, parsing...)
 					if err != nil {
 						t.error(err)
 					}
 				} else {
-					tt, err := t.set.getSiblingTemplate(s, t.Name, cacheAfterParsing)
+					tt, err := t.set.getSiblingTemplate(s, t.Name, cacheAfterParsing, parsing...)
 					if err != nil {
 						t.error(err)
 					}
